@@ -32,34 +32,33 @@ func ruleC15R1(w *World, r *Report) {
 	r.rule(rule, "every escape emitted by token/quote.go decodes (per the lexer's table) to the value it was emitted for; numeric formats have the digit count the lexer demands and guards that make the value fit; \\u/\\U are not emitted for bytes", 4)
 	info := w.Tok.TypesInfo
 	fd := findFuncDecl(w.Tok, "", "quoteSingleEscape")
-	if fd == nil {
-		r.errorf("token.quoteSingleEscape not found")
-		return
-	}
-	params := fd.Type.Params.List
 	var rObj, quoteObj, isStringObj types.Object
-	var names []*ast.Ident
-	for _, p := range params {
-		names = append(names, p.Names...)
-	}
-	if len(names) == 3 {
-		rObj, quoteObj, isStringObj = info.Defs[names[0]], info.Defs[names[1]], info.Defs[names[2]]
-	} else {
-		r.errorf("token.quoteSingleEscape: expected parameters (r, quote rune, isString bool)")
-		return
-	}
 	var sw *ast.SwitchStmt
-	for _, st := range fd.Body.List {
-		if s, ok := st.(*ast.SwitchStmt); ok && s.Tag == nil {
-			sw = s
+	where := "-"
+	if strE, _ := w.quoteEscapers(); strE != nil {
+		where = w.pos(strE.fn.Pos())
+	}
+	if fd != nil {
+		var names []*ast.Ident
+		for _, p := range fd.Type.Params.List {
+			names = append(names, p.Names...)
+		}
+		if len(names) == 3 {
+			rObj, quoteObj, isStringObj = info.Defs[names[0]], info.Defs[names[1]], info.Defs[names[2]]
+			for _, st := range fd.Body.List {
+				if s, ok := st.(*ast.SwitchStmt); ok && s.Tag == nil {
+					sw = s
+				}
+			}
 		}
 	}
 	unconditional := map[string]bool{}
 	if sw == nil {
-		// not the tagless switch the first version of the rule reads: the function is followed by interpretation (CONCR)
-		// for every byte value and a few larger runes, each quote character and both kinds of literal — it only compares
-		// its rune with constants, so this is its whole table
-		w.quoteEscapeTable(r, rule, fd)
+		// not the tagless switch of quoteSingleEscape(r, quote, isString) the first version of the rule reads: the
+		// function each content loop consults for an element (whatever it is called, one for both kinds of literal or one
+		// each) is followed by interpretation (CONCR) for every byte value and a few larger runes and each quote
+		// character — it only compares its element with constants, so this is its whole table
+		w.quoteEscapeTable(r, rule, where)
 		unconditional["quote"], unconditional["backslash"] = true, true // judged inside, per quote character
 		sw = &ast.SwitchStmt{Body: &ast.BlockStmt{}}
 	}
@@ -160,15 +159,15 @@ func ruleC15R1(w *World, r *Report) {
 	if len(sw.Body.List) == 0 {
 		// decided by quoteEscapeTable
 	} else if !unconditional["quote"] {
-		r.bad(rule, "quoteSingleEscape escapes the quote unconditionally", w.pos(fd.Pos()), "no arm `r == quote` that applies to strings, bytes and identifiers alike: the literal could be closed early")
+		r.bad(rule, "quoteSingleEscape escapes the quote unconditionally", where, "no arm `r == quote` that applies to strings, bytes and identifiers alike: the literal could be closed early")
 	} else {
-		r.ok(rule, "quoteSingleEscape escapes the quote unconditionally", w.pos(fd.Pos()), "arm r == quote is not guarded by isString")
+		r.ok(rule, "quoteSingleEscape escapes the quote unconditionally", where, "arm r == quote is not guarded by isString")
 	}
 	if len(sw.Body.List) == 0 {
 	} else if !unconditional["backslash"] {
-		r.bad(rule, "quoteSingleEscape escapes the backslash unconditionally", w.pos(fd.Pos()), "no unguarded arm for '\\\\': a backslash in the value would start an escape")
+		r.bad(rule, "quoteSingleEscape escapes the backslash unconditionally", where, "no unguarded arm for '\\\\': a backslash in the value would start an escape")
 	} else {
-		r.ok(rule, "quoteSingleEscape escapes the backslash unconditionally", w.pos(fd.Pos()), "arm r == '\\\\' is not guarded by isString")
+		r.ok(rule, "quoteSingleEscape escapes the backslash unconditionally", where, "arm r == '\\\\' is not guarded by isString")
 	}
 
 	// numeric formats
@@ -276,9 +275,19 @@ func ruleC15R1(w *World, r *Report) {
 	}
 
 	// the quote parameter ranges over the three quote characters
-	qf := w.fn(w.Tok, "quoteSingleEscape")
-	if qf != nil && len(qf.Params) == 3 {
-		vals, ok := w.constantsReaching(qf.Params[1], map[ssa.Value]bool{}, 0)
+	strE, bytE := w.quoteEscapers()
+	var escs []*quoteEscaper
+	for _, e := range []*quoteEscaper{strE, bytE} {
+		if e != nil && (len(escs) == 0 || escs[0].fn != e.fn) {
+			escs = append(escs, e)
+		}
+	}
+	if len(escs) == 0 {
+		r.undecided(rule, "values of the quote parameter", where, "the content loops do not consult an escaper function")
+	}
+	for _, esc := range escs {
+		qf := esc.fn
+		vals, ok := w.constantsReaching(qf.Params[esc.quoteIdx], map[ssa.Value]bool{}, 0)
 		sort.Slice(vals, func(i, j int) bool { return vals[i] < vals[j] })
 		bad := ""
 		for _, v := range vals {
@@ -288,11 +297,11 @@ func ruleC15R1(w *World, r *Report) {
 		}
 		switch {
 		case !ok:
-			r.undecided(rule, "values of the quote parameter", w.pos(qf.Pos()), "cannot enumerate the constants reaching the quote parameter")
+			r.undecided(rule, "values of the quote parameter of "+qf.Name(), w.pos(qf.Pos()), "cannot enumerate the constants reaching the quote parameter")
 		case bad != "":
-			r.bad(rule, "values of the quote parameter", w.pos(qf.Pos()), "quote character "+bad+" is not a delimiter the lexer knows")
+			r.bad(rule, "values of the quote parameter of "+qf.Name(), w.pos(qf.Pos()), "quote character "+bad+" is not a delimiter the lexer knows")
 		default:
-			r.ok(rule, "values of the quote parameter", w.pos(qf.Pos()), fmt.Sprintf("quote ∈ %q", runesOf(vals)))
+			r.ok(rule, "values of the quote parameter of "+qf.Name(), w.pos(qf.Pos()), fmt.Sprintf("quote ∈ %q", runesOf(vals)))
 		}
 	}
 }
@@ -397,17 +406,18 @@ func (w *World) constantsReaching(v ssa.Value, seen map[ssa.Value]bool, depth in
 func ruleC15R2(w *World, r *Report) {
 	const rule = "C15/R2"
 	r.rule(rule, "in QuoteSQLBytes and quoteSQLStringContent a raw write (WriteRune/WriteByte) of the loop element is dominated by the `q == \"\"` edge of a test on quoteSingleEscape(<that element>, quote, …); the opening and closing delimiter written by QuoteSQLString/Bytes/Ident are the same value that is passed as quote", 3)
-	qf := w.fn(w.Tok, "quoteSingleEscape")
-	if qf == nil {
-		r.errorf("token.quoteSingleEscape not found")
-		return
-	}
 	for _, name := range []string{"quoteSQLStringContent", "QuoteSQLBytes"} {
 		fn := w.fn(w.Tok, name)
 		if fn == nil {
 			r.errorf("token.%s not found", name)
 			continue
 		}
+		esc := w.quoteEscaperOf(fn)
+		if esc == nil {
+			r.errorf("token.%s: its loop does not consult an escaper function of (element, quote) whose result is tested against \"\"", name)
+			continue
+		}
+		qf := esc.fn
 		nraw := 0
 		for _, b := range fn.Blocks {
 			for _, in := range b.Instrs {
@@ -455,14 +465,14 @@ func ruleC15R2(w *World, r *Report) {
 						continue
 					}
 					// same element: the escaped value is (a conversion of) the written value
-					if sameElem(qc.Call.Args[0], arg) {
+					if esc.elemIdx < len(qc.Call.Args) && sameElem(qc.Call.Args[esc.elemIdx], arg) {
 						found = true
 					}
 				}
 				if found {
-					r.ok(rule, construct, w.pos(call.Pos()), "reached only when quoteSingleEscape(elem, quote, …) returned \"\"")
+					r.ok(rule, construct, w.pos(call.Pos()), "reached only when "+qf.Name()+"(elem, quote, …) returned \"\"")
 				} else {
-					r.bad(rule, construct, w.pos(call.Pos()), "the element is written raw on a path where quoteSingleEscape was not consulted for it (a quote or backslash could be emitted unescaped)")
+					r.bad(rule, construct, w.pos(call.Pos()), "the element is written raw on a path where the escaper "+qf.Name()+" was not consulted for it (a quote or backslash could be emitted unescaped)")
 				}
 			}
 		}
@@ -479,29 +489,43 @@ func ruleC15R2(w *World, r *Report) {
 		}
 		var delims []ssa.Value
 		var contentQuote []ssa.Value
-		for _, b := range fn.Blocks {
-			for _, in := range b.Instrs {
-				call, ok := in.(*ssa.Call)
-				if !ok {
-					continue
-				}
-				callee := call.Call.StaticCallee()
-				if callee == nil {
-					continue
-				}
-				switch callee.Name() {
-				case "WriteRune", "WriteByte":
-					if len(call.Call.Args) == 2 && indexOfBlock(fn, b) >= 0 && !inLoop(b) {
-						delims = append(delims, call.Call.Args[1])
+		construct := "delimiters of " + name
+		for hop := 0; hop < 3; hop++ {
+			delims, contentQuote = nil, nil
+			var delegate *ssa.Function
+			for _, b := range fn.Blocks {
+				for _, in := range b.Instrs {
+					call, ok := in.(*ssa.Call)
+					if !ok {
+						continue
 					}
-				case "quoteSQLStringContent":
-					contentQuote = append(contentQuote, call.Call.Args[1])
-				case "quoteSingleEscape":
-					contentQuote = append(contentQuote, call.Call.Args[1])
+					callee := call.Call.StaticCallee()
+					if callee == nil {
+						continue
+					}
+					switch callee.Name() {
+					case "WriteRune", "WriteByte":
+						if len(call.Call.Args) == 2 && indexOfBlock(fn, b) >= 0 && !inLoop(b) {
+							delims = append(delims, call.Call.Args[1])
+						}
+					case "quoteSQLStringContent":
+						contentQuote = append(contentQuote, call.Call.Args[1])
+					default:
+						if esc := w.quoteEscaperOf(fn); esc != nil && esc.fn == callee && esc.quoteIdx < len(call.Call.Args) {
+							contentQuote = append(contentQuote, call.Call.Args[esc.quoteIdx])
+						} else if fnPkgPath(callee) == modRoot+"/token" && callee.Blocks != nil && isStringType(call.Type()) && len(call.Call.Args) >= 2 {
+							delegate = callee // QuoteSQLString -> quoteSQLStringWith(s, quote): the literal is put together there
+						}
+					}
 				}
 			}
+			if len(delims) == 0 && len(contentQuote) == 0 && delegate != nil {
+				fn = delegate
+				construct = "delimiters of " + name + " (written in " + delegate.Name() + ")"
+				continue
+			}
+			break
 		}
-		construct := "delimiters of " + name
 		okD := len(delims) == 2 && sameValue(delims[0], delims[1])
 		for _, q := range contentQuote {
 			okD = okD && len(delims) > 0 && sameValue(delims[0], q)
@@ -840,26 +864,77 @@ func ruleC15R6(w *World, r *Report) {
 	}
 }
 
-// quoteEscapeTable: quoteSingleEscape followed by interpretation over its finite table.
-func (w *World) quoteEscapeTable(r *Report, rule string, fd *ast.FuncDecl) {
-	fn := w.fn(w.Tok, "quoteSingleEscape")
-	if fn == nil || len(fn.Params) != 3 {
-		r.undecided(rule, "quoteSingleEscape (table)", w.pos(fd.Pos()), "not a function of (rune, quote rune, isString bool)")
-		return
+// quoteEscaper: the function a content loop of token/quote.go consults for one element — the call in the loop of fn whose
+// string result is compared with "" — and the roles of its arguments (element, quote character, constant bool).
+type quoteEscaper struct {
+	fn                      *ssa.Function
+	call                    *ssa.Call
+	elemIdx, quoteIdx, bIdx int
+	bVal                    bool
+}
+
+func (w *World) quoteEscaperOf(fn *ssa.Function) *quoteEscaper {
+	if fn == nil {
+		return nil
 	}
-	ri, qi, bi := -1, -1, -1
-	for i, p := range fn.Params {
-		switch {
-		case isBoolType(p.Type()):
-			bi = i
-		case p.Name() == "quote":
-			qi = i
-		default:
-			ri = i
+	for _, b := range fn.Blocks {
+		if !inLoop(b) {
+			continue
+		}
+		for _, in := range b.Instrs {
+			c, ok := in.(*ssa.Call)
+			if !ok {
+				continue
+			}
+			callee := c.Call.StaticCallee()
+			if callee == nil || callee.Blocks == nil || fnPkgPath(callee) != modRoot+"/token" || !isStringType(c.Type()) || len(c.Call.Args) < 2 {
+				continue
+			}
+			tested := false
+			for _, u := range referrers(c) {
+				if bo, ok := u.(*ssa.BinOp); ok && (bo.Op == token.EQL || bo.Op == token.NEQ) {
+					if sv, ok := constString(bo.Y); ok && sv == "" {
+						tested = true
+					}
+				}
+			}
+			if !tested {
+				continue
+			}
+			e := &quoteEscaper{fn: callee, call: c, elemIdx: -1, quoteIdx: -1, bIdx: -1}
+			for i, a := range c.Call.Args {
+				if bv, ok := constBool(a); ok {
+					e.bIdx, e.bVal = i, bv
+					continue
+				}
+				loopDep := false
+				if ai, ok := a.(ssa.Instruction); ok && ai.Block() != nil && inLoop(ai.Block()) {
+					loopDep = true
+				}
+				if loopDep && e.elemIdx < 0 {
+					e.elemIdx = i
+				} else if !loopDep && e.quoteIdx < 0 {
+					e.quoteIdx = i
+				}
+			}
+			if e.elemIdx >= 0 && e.quoteIdx >= 0 {
+				return e
+			}
 		}
 	}
-	if ri < 0 || qi < 0 || bi < 0 {
-		r.undecided(rule, "quoteSingleEscape (table)", w.pos(fd.Pos()), "parameters (r, quote, isString) not identified")
+	return nil
+}
+
+// quoteEscapers: the escaper of the string content loop and of the bytes content loop.
+func (w *World) quoteEscapers() (str, byt *quoteEscaper) {
+	return w.quoteEscaperOf(w.fn(w.Tok, "quoteSQLStringContent")), w.quoteEscaperOf(w.fn(w.Tok, "QuoteSQLBytes"))
+}
+
+// quoteEscapeTable: quoteSingleEscape followed by interpretation over its finite table.
+func (w *World) quoteEscapeTable(r *Report, rule string, where string) {
+	strE, bytE := w.quoteEscapers()
+	if strE == nil || bytE == nil {
+		r.undecided(rule, "escaper (table)", where, "the content loops of quoteSQLStringContent / QuoteSQLBytes do not consult a function of (element, quote) whose result is tested against \"\"")
 		return
 	}
 	init, _ := w.pkgInit(modRoot + "/token")
@@ -877,14 +952,27 @@ func (w *World) quoteEscapeTable(r *Report, rule string, fd *ast.FuncDecl) {
 	for _, quote := range []rune{'"', '\'', '`'} {
 		for _, isStr := range []bool{false, true} {
 			for _, c := range runes {
+				esc := bytE
+				if isStr {
+					esc = strE
+				}
+				if !isStr && c > 0xFF {
+					continue
+				}
+				fn := esc.fn
 				ci := w.newConcr()
 				ci.heap = true
 				if init != nil {
 					ci.globals = init.globals
 				}
-				args := make([]cval, 3)
-				args[ri], args[qi] = mkInt(int(c)), mkInt(int(quote))
-				args[bi] = cval{kind: cConst, c: constant.MakeBool(isStr)}
+				args := make([]cval, len(fn.Params))
+				for i := range args {
+					args[i] = mkInt(0)
+				}
+				args[esc.elemIdx], args[esc.quoteIdx] = mkInt(int(c)), mkInt(int(quote))
+				if esc.bIdx >= 0 {
+					args[esc.bIdx] = cval{kind: cConst, c: constant.MakeBool(esc.bVal)}
+				}
 				out := ci.run(fn, args, 0)
 				e, known := "", false
 				if out.status == "return" && len(out.vals) == 1 {
@@ -897,13 +985,13 @@ func (w *World) quoteEscapeTable(r *Report, rule string, fd *ast.FuncDecl) {
 					}
 				}
 				if !known {
-					undec = fmt.Sprintf("quoteSingleEscape(%q, %q, %v) could not be followed: %s %s", c, quote, isStr, out.status, out.why)
+					undec = fmt.Sprintf("%s(%q, %q) [string=%v] could not be followed: %s %s", fn.Name(), c, quote, isStr, out.status, out.why)
 					continue
 				}
-				construct := fmt.Sprintf("quoteSingleEscape(%q) = %q", c, e)
+				construct := fmt.Sprintf("escape(%q) = %q", c, e)
 				if e == "" {
 					if c == quote || c == '\\' {
-						r.bad(rule, fmt.Sprintf("quoteSingleEscape(%q) with quote %q", c, quote), w.pos(fd.Pos()), "no escape is emitted for the active quote character / the backslash: the literal would be closed early or start an escape")
+						r.bad(rule, fmt.Sprintf("escape(%q) with quote %q", c, quote), where, "no escape is emitted for the active quote character / the backslash: the literal would be closed early or start an escape")
 					}
 					continue
 				}
@@ -913,24 +1001,24 @@ func (w *World) quoteEscapeTable(r *Report, rule string, fd *ast.FuncDecl) {
 				seen[key{c, e}] = true
 				switch {
 				case len(e) == 2 && e[0] == '\\' && rune(e[1]) == c && (c == '"' || c == '\'' || c == '`' || c == '\\' || c == '?'):
-					r.ok(rule, construct, w.pos(fd.Pos()), "backslash + the character itself, which decodes to itself")
+					r.ok(rule, construct, where, "backslash + the character itself, which decodes to itself")
 				case len(e) == 2 && e[0] == '\\':
 					dec, ok := specDecode[e[1]]
 					if !ok {
-						r.bad(rule, construct, w.pos(fd.Pos()), fmt.Sprintf("emits %q, which the lexer does not decode as a simple escape", e))
+						r.bad(rule, construct, where, fmt.Sprintf("emits %q, which the lexer does not decode as a simple escape", e))
 					} else if dec != c {
-						r.bad(rule, construct, w.pos(fd.Pos()), fmt.Sprintf("emits %q for %q, but the lexer decodes it to %q", e, c, dec))
+						r.bad(rule, construct, where, fmt.Sprintf("emits %q for %q, but the lexer decodes it to %q", e, c, dec))
 					} else {
-						r.ok(rule, construct, w.pos(fd.Pos()), fmt.Sprintf("%q -> %q -> %q", c, e, dec))
+						r.ok(rule, construct, where, fmt.Sprintf("%q -> %q -> %q", c, e, dec))
 					}
 				default:
-					r.bad(rule, construct, w.pos(fd.Pos()), fmt.Sprintf("emits %q, which is not a backslash followed by one escape letter", e))
+					r.bad(rule, construct, where, fmt.Sprintf("emits %q, which is not a backslash followed by one escape letter", e))
 				}
 			}
 		}
 	}
 	if undec != "" {
-		r.undecided(rule, "quoteSingleEscape (table)", w.pos(fd.Pos()), undec)
+		r.undecided(rule, "escaper (table)", where, undec)
 	}
 }
 
